@@ -35,6 +35,21 @@ SuccOf(s) ==
         J == CHOOSE j \in 1..k : Can(j) /\ \A q \in j + 1..k : ~Can(q)
     IN [p \in 1..k |-> IF p < J THEN s[p] ELSE IF p = J THEN s[p] + 1 ELSE k - p]
 
+\* ---- beyond 32 bits: naturals as two limbs <<hi, lo>> in base 2^16 (n up to 6000: C(n,3) < 3.6 * 10^10) ----
+LB == 65536
+\* x * q for x < 2^25, q < 2^13, as limbs
+MulLimbs(x, q) == LET xh == x \div LB  xl == x % LB  low == xl * q IN << xh * q + (low \div LB), low % LB >>
+AddLimbs(u, v) == LET low == u[2] + v[2] IN << u[1] + v[1] + (low \div LB), low % LB >>
+C3Limbs(a) == IF a < 3 THEN << 0, 0 >>
+              ELSE IF (a - 2) % 3 = 0 THEN MulLimbs(C2(a), (a - 2) \div 3) ELSE MulLimbs(C2(a) \div 3, a - 2)
+RankLimbs3(s) == AddLimbs(AddLimbs(C3Limbs(s[1]), << C2(s[2]) \div LB, C2(s[2]) % LB >>), << 0, s[3] >>)
+BigPointOk(e) ==
+    /\ Check(tid, 1, "length", Len(e.out) = 3)
+    /\ Check(tid, 1, "descending", Descending(e.out))
+    /\ Check(tid, 1, "in-range", InRange(e.out, e.n))
+    /\ Check(tid, 1, "rank-equals-index (two-limb arithmetic)", RankLimbs3(e.out) = << e.idx_hi, e.idx_lo >>)
+    /\ (e.has_next => Check(tid, 1, "successor", e.nxt = SuccOf(e.out)))
+
 PointOk(e) ==
     /\ Check(tid, 1, "length", Len(e.out) = e.k)
     /\ Check(tid, 1, "descending", Descending(e.out))
@@ -56,7 +71,7 @@ DbalOk(e) ==
        /\ Check(tid, 1, "all-triples-when-budget-covers",
                 total <= e.budget => Cardinality({P[p].t : p \in 1..Len(P)}) = total)
 
-Ok(e) == IF e.kind = "point" THEN PointOk(e) ELSE DbalOk(e)
+Ok(e) == IF e.kind = "point" THEN PointOk(e) ELSE IF e.kind = "bigpoint" THEN BigPointOk(e) ELSE DbalOk(e)
 
 Init == tid \in 1..Len(Traces)
 Next == UNCHANGED tid
